@@ -174,9 +174,17 @@ pub fn check_tree(info: &LangInfo, text: &[u8], tree: &Tree, full_limit: usize) 
         // fields
         for f in 1..=nfields {
             let want = kids.iter().copied().find(|&k| xt.nodes[k].field_id == f);
-            c.expect("child_by_field_id", &format!("#{}.child_by_field_id({})", i, f), n.child_by_field_id(f), want);
+            // Known limitation (see known_findings.json): a field on a HIDDEN rule that stays in the tree yields that node's
+            // first visible child, even when the hidden rule's own production gives that child another field (which is what
+            // the cursor and field_name_for_child report for it). Own fingerprint for exactly that shape: nestf `entry`,
+            // answer = the child that carries the inner field `key`, asked for `item`.
+            let got_f = n.child_by_field_id(f);
+            let inner = info.name == "nestf" && n.kind() == "entry" && lang.field_name_for_id(f) == Some("item")
+                && got_f.map(|g| kids.iter().any(|&k| c.same(&g, k) && lang.field_name_for_id(xt.nodes[k].field_id) == Some("key"))).unwrap_or(false);
+            let fp_sfx = if inner { "-hidden-rule-with-inner-field" } else { "" };
+            c.expect(&format!("child_by_field_id{}", fp_sfx), &format!("#{}.child_by_field_id({})", i, f), got_f, want);
             if let Some(name) = lang.field_name_for_id(f) {
-                c.expect("child_by_field_name", &format!("#{}.child_by_field_name({})", i, name), n.child_by_field_name(name), want);
+                c.expect(&format!("child_by_field_name{}", fp_sfx), &format!("#{}.child_by_field_name({})", i, name), n.child_by_field_name(name), want);
             }
         }
         for (k, &ci) in kids.iter().enumerate() {
@@ -427,7 +435,8 @@ fn wide_docs(name: &str) -> Vec<Vec<u8>> {
 pub fn worker(ctx: &Ctx, res: &mut ShardResult) {
     let (k, full) = params(&ctx.tier);
     let mut idx = 0usize;
-    for z in crate::zoo::core_zoo().iter() {
+    // (plus `nestf`: fields on hidden rules that stay in the tree, with inner fields of their own)
+    for z in crate::zoo::core_zoo().iter().chain(std::iter::once(&crate::zoo::nestf())) {
         let info = build_info(z);
         let mut parser = Parser::new();
         parser.set_language(&info.language).unwrap();
